@@ -21,7 +21,7 @@ def oracle(rec):
 def run(rep, tier, seed):
     n = size(tier, 100, 2000)
     for name, quant, par in (("fol-qf", False, True), ("quant", True, True), ("qparent", True, 1.0)):
-        progs = [streams.gen_fol_program(seed + 11, k, quant=quant, crossed_p=0.05, mid_facts=0.1, parents=par)
+        progs = [streams.gen_fol_program(seed + 11, k, quant=quant, crossed_p=0.05, mid_facts=0.1, parents=par, restrict_p=0.2)
                  for k in range(n if par is True else n // 2)]
         for p in progs:
             p["ops"] = list(p["ops"]) + [("passup",), ("passup",), ("passdown",), ("passdown",)]
